@@ -496,6 +496,49 @@ func genRoutes(repo, out string) {
 	}
 	fmt.Fprintf(&sb, "\n/-- the handlers wrapped around the route table when it is handed to `http.ListenAndServe`, outermost first -/\ndef wrappers : List String := %s\n", leanStrList(wrappers))
 	fmt.Fprintf(&sb, "\n/-- statements of those wrappers that write through the request they pass on (its address, headers, cookies) -/\ndef wrapperRequestWrites : List String := %s\n", leanStrList(writes))
+	// ---- the cookie key: every expression that reaches into the session configuration (h.sess / session.Config
+	// values), by enclosing function. The key pair lives in it; whoever learns either half can mint a cookie.
+	if wf := parse(repo, "shovel/web/web.go"); wf != nil {
+		var uses []string
+		for _, d := range wf.Decls {
+			fd, ok := d.(*ast.FuncDecl)
+			if !ok || fd.Body == nil {
+				continue
+			}
+			seen := map[string]bool{}
+			ast.Inspect(fd.Body, func(n ast.Node) bool {
+				sel, ok := n.(*ast.SelectorExpr)
+				if !ok {
+					return true
+				}
+				if sel.Sel.Name == "sess" {
+					return true // the field itself; its uses are the enclosing expressions listed below
+				}
+				if inner, ok := sel.X.(*ast.SelectorExpr); ok && inner.Sel.Name == "sess" {
+					if k := fd.Name.Name + ": " + src(sel); !seen[k] {
+						seen[k] = true
+						uses = append(uses, k)
+					}
+				}
+				return true
+			})
+			// the whole configuration handed to somebody: &h.sess
+			ast.Inspect(fd.Body, func(n ast.Node) bool {
+				if u, ok := n.(*ast.UnaryExpr); ok && u.Op == token.AND {
+					if inner, ok := u.X.(*ast.SelectorExpr); ok && inner.Sel.Name == "sess" {
+						if c := enclosingCall(fd.Body, u); c != "" {
+							if k := fd.Name.Name + ": " + c; !seen[k] {
+								seen[k] = true
+								uses = append(uses, k)
+							}
+						}
+					}
+				}
+				return true
+			})
+		}
+		fmt.Fprintf(&sb, "\n/-- every use of the session configuration (which holds the cookie key pair) in shovel/web/web.go:\n    field accesses `h.sess.X` and calls that receive `&h.sess`, by enclosing function -/\ndef sessUses : List String := %s\n", leanStrList(uses))
+	}
 	sb.WriteString("\nend Shovel.Gen.Routes\n")
 	writeIfChanged(filepath.Join(out, "Routes.lean"), sb.String())
 }
@@ -577,4 +620,20 @@ func leanStrList(xs []string) string {
 		q = append(q, leanStr(x))
 	}
 	return "[" + strings.Join(q, ", ") + "]"
+}
+
+// enclosingCall: the callee of the innermost call in body that has target among its arguments
+func enclosingCall(body ast.Node, target ast.Node) string {
+	out := ""
+	ast.Inspect(body, func(n ast.Node) bool {
+		if c, ok := n.(*ast.CallExpr); ok {
+			for _, a := range c.Args {
+				if a == target {
+					out = src(c.Fun)
+				}
+			}
+		}
+		return true
+	})
+	return out
 }
